@@ -133,7 +133,25 @@ static void dump_state(void)
         else printf(":-");
     }
     if (maximum_files == 0) printf("-");
-    printf(" | fds %d h5 %ld\n", fd_count() - fd0, h5_count());
+    printf(" | fds %d h5 %ld", fd_count() - fd0, h5_count());
+    if (is_h5) {
+        /* identifier census by kind (datatypes,datasets,attributes,groups): of the whole process, then of the file of every
+           open cgio handle (ids opened through that file: what ADFH_Database_Close will look at) */
+        static const unsigned kinds[4] = {H5F_OBJ_DATATYPE, H5F_OBJ_DATASET, H5F_OBJ_ATTR, H5F_OBJ_GROUP};
+        printf(" | h5k");
+        for (j = 0; j < 4; j++) printf("%s%ld", j ? "," : " ", (long)H5Fget_obj_count((hid_t)H5F_OBJ_ALL, kinds[j]));
+        for (i = 0; i < num_iolist; i++) {
+            hid_t hid, fid;
+            if (iolist[i].type != CGIO_FILE_HDF5) continue;
+            to_HDF_ID(iolist[i].rootid, hid);
+            fid = H5Iget_file_id(hid);
+            if (fid < 0) { printf(" %d=?", i + 1); continue; }
+            printf(" %d=", i + 1);
+            for (j = 0; j < 4; j++) printf("%s%ld", j ? "," : "", (long)H5Fget_obj_count(fid, kinds[j] | H5F_OBJ_LOCAL));
+            H5Fclose(fid);
+        }
+    }
+    printf("\n");
     fflush(stdout);
 }
 
